@@ -159,6 +159,7 @@ class Build:
         for en in self.entries:
             main.append('void %s(void);' % en)
             main.append('void vfmain_%s(void){ ll_init_K(); ll_init_D(); %s(); VF_WITNESS("VF_WITNESS:end"); }' % (en, en))
+            main.append('void vfnw_%s(void){ ll_init_K(); ll_init_D(); %s(); }' % (en, en))
         open(os.path.join(self.dir, 'main.c'), 'w').write('\n'.join(main) + '\n')
         gb = os.path.join(self.dir, 'model.gb')
         cmd = ['goto-cc', '-DVF_CBMC=1', '-I' + ENGINE, os.path.join(self.dir, 'K.c'), os.path.join(self.dir, 'D.c'), os.path.join(self.dir, 'main.c'),
@@ -173,6 +174,11 @@ class Build:
         return self
 
 
+SMT_SOLVERS = {
+    'cvc5int': ['cvc5', '--solve-bv-as-int=sum'],
+    'cvc5': ['cvc5'],
+    'z3': ['z3'],
+}
 SOLVER_FLAGS = {
     'minisat': [],
     'cadical': ['--sat-solver', 'cadical'],
@@ -250,6 +256,48 @@ def run_query(b, q, mem_gb):
         base += ['--unwindset', ','.join('%s:%d' % (k, v) for k, v in us.items())]
     base += CBMC_FLAGS + list(q.get('cbmc_flags', []))
     for sv in solvers:
+        if sv in SMT_SOLVERS:
+            # exported verification condition decided by an SMT solver; only an UNSAT answer is final (DESIGN.md 1.6)
+            smt = os.path.join(b.dir, 'vc_%s_%d.smt2' % (q['entry'], os.getpid() * 1000 + random.randrange(1000)))
+            cmd = [x for x in base if x not in ('--json-ui', '--trace')]
+            cmd[cmd.index('vfmain_' + q['entry'])] = 'vfnw_' + q['entry']
+            cmd += ['--smt2', '--outfile', smt]
+            rc, o, e, s1, to = sh(cmd, timeout=budget, mem_gb=mem_gb)
+            r.secs += s1
+            if to or not os.path.exists(smt):
+                r.status = 'timeout'; r.detail = 'VC export failed or timed out'; r.solver = sv
+                continue
+            rc, o, e, s2, to = sh(SMT_SOLVERS[sv] + [smt], timeout=q.get('smt_budget', budget), mem_gb=mem_gb)
+            r.secs += s2
+            try:
+                os.unlink(smt)
+            except OSError:
+                pass
+            first = (o.strip().splitlines() or [''])[0].strip()
+            if to or first not in ('sat', 'unsat') or (first == 'unsat' and re.search(r'\(error(?! "Cannot get value)', o)):
+                r.status = 'timeout'; r.solver = sv
+                r.detail = 'no verdict from %s (%s)' % (sv, 'timeout' if to else (first or e[-100:]))
+                continue
+            if first == 'sat':
+                r.status = 'timeout'; r.solver = sv
+                r.detail = '%s reports a counterexample; re-solving with a SAT back end for the trace' % sv
+                continue
+            # unsat: all obligations hold; now the witness (reachability) with a SAT back end
+            wcmd = base + ['--property', 'vfmain_%s.assertion.1' % q['entry']]
+            rc, o, e, s3, to = sh(wcmd, timeout=budget, mem_gb=mem_gb)
+            r.secs += s3
+            r.solver = sv
+            pr = parse_cbmc_json(o)
+            if to or pr is None or pr[0] is None:
+                r.status = 'timeout'; r.detail = 'witness query: no verdict'
+                continue
+            wit = [p for p in pr[0] if p.get('description', '').startswith('VF_WITNESS')]
+            r.nprops = len(pr[0])
+            if wit and all(p.get('status') == 'FAILURE' for p in wit):
+                r.status = 'ok'; r.detail = ''
+            else:
+                r.status = 'vacuous'; r.detail = 'witness not reachable (smt route)'
+            return r
         cmd = base + SOLVER_FLAGS[sv]
         rc, o, e, s, to = sh(cmd, timeout=budget, mem_gb=mem_gb)
         r.secs += s
@@ -460,6 +508,8 @@ def check(prop, tier, families=None, only_entry=None, verbose=False):
         for q in qs:
             if only_entry and q['entry'] not in only_entry:
                 continue
+            if q.get('confirm_only'):   # configuration that lies wholly inside an open known-finding region: only its confirm query runs
+                continue
             nofunc = bool(q.get('nofunc', False))
             bb = get_build(fam, q.get('cfg', {}), bool(q.get('ub', False)), kfmain, nofunc)
             qlist.append((fam, q, bb))
@@ -539,6 +589,15 @@ def check(prop, tier, families=None, only_entry=None, verbose=False):
             infra.append('%s: %s %s cfg=%s: %s' % (r.status, fam.name, q['entry'], cfg_key(bb.cfg), r.detail[:300]))
     # vacuity inside a fully-known region is acceptable: re-check handled by spec authors via separate configs
     kf_lines = []
+    # native replay binaries of the confirm queries are independent of each other: build them in parallel
+    kf_pre = {}
+    for (fam, q, bb, r, k) in kfresults:
+        if r.status == 'fail' and bb.key not in native_cache:
+            kf_pre.setdefault(bb.key, (bb, q['entry']))
+    if len(kf_pre) > 1:
+        with cf.ThreadPoolExecutor(NCPU) as ex:
+            for key, res in zip(kf_pre, ex.map(lambda a: native_build(a[0], a[1], os.path.join(a[0].dir, 'native')), kf_pre.values())):
+                native_cache[key] = res
     for (fam, q, bb, r, k) in kfresults:
         if r.status == 'fail':
             path, conf, reasons = replay_result(fam, q, bb, r)
